@@ -164,6 +164,8 @@ v("C03", "result-channel-shared", HB, "\t\t\tresultChan := make(chan updateResul
 v("C06", "no-check-at-watch-establishment", W, "\tif !e.IsLeader() {\n\t\te.checkKeyAndReelect(ctx)\n\t}\n\n\tfor {\n\t\tselect {\n\t\tcase <-ctx.Done():\n\t\t\treturn\n\t\tcase entry, ok := <-watcher.Updates():", "\tfor {\n\t\tselect {\n\t\tcase <-ctx.Done():\n\t\t\treturn\n\t\tcase entry, ok := <-watcher.Updates():", ["C06-R2"], "two periods between existence checks around a watch re-establishment")
 v("C07", "validation-timeout-fixed", FE, "\tif half := e.cfg.HeartbeatInterval / 2; half > validationTimeout {\n\t\tvalidationTimeout = half\n\t}\n", "", ["C07-R7"], "the background validation read times out after a fixed 2 s")
 v("C08", "demotion-result-lost", KV, "\tif ctx := e.ctx; ctx != nil && !e.watcherRunning.Load() {", "\tif e.ctx == nil {\n\t\treturn false\n\t}\n\tif ctx := e.ctx; ctx != nil && !e.watcherRunning.Load() {", ["C08-R2"], "enterFollowerState returns false after it cleared a standing claim")
+v("C13", "preempts-nameless-record", KV, "\tif currentPayload.ID == \"\" {\n\t\treturn fmt.Errorf(\"priority takeover skipped (record names no leader)\")\n\t}\n", "", ["C13-R6"], "a record that is valid JSON but no leadership payload is preempted as priority 0")
+v("C08", "failed-stop-silent", KV, "\t\tif wasLeader && hasOnDemote {\n\t\t\te.notifyDemotedByFailedStop()\n\t\t}\n\t\treturn fmt.Errorf(\"shutdown timeout exceeded: %v\", timeout)", "\t\treturn fmt.Errorf(\"shutdown timeout exceeded: %v\", timeout)", ["C08-R2"], "a StopWithContext that times out clears the claim without OnDemote")
 # ---- C19
 v("C19", "demotion-does-not-cancel", KV, "\tif e.termCancel != nil {\n\t\te.termCancel()\n\t\te.termCancel = nil\n\t}\n", "", ["C19-R1"], "demotion no longer cancels the term context")
 v("C19", "promotion-context-from-background", KV, "promoteCtx, cancel := context.WithCancel(termCtx)", "_ = termCtx\n\t\t\tpromoteCtx, cancel := context.WithCancel(context.Background())", ["C19-R1"], "the promotion context is detached from the term")
